@@ -11,7 +11,7 @@ if [ "$src" != "$out" ]; then cp "$src/patch.diff" "$src/demo.py" "$out/"; [ -f 
 wt=$(mktemp -d /tmp/seedwt-XXXXXX); rmdir "$wt"
 git -C /repo worktree add -q --detach "$wt" HEAD || exit 2
 demo_clean=$(cd /tmp && PYTHONPATH="$wt/src" timeout 300 /venv/bin/python "$out/demo.py" >/dev/null 2>&1; echo $?)
-if ! git -C "$wt" apply "$out/patch.diff"; then echo "PATCH DOES NOT APPLY"; git -C /repo worktree remove --force "$wt"; exit 2; fi
+if ! git -C "$wt" apply "$out/patch.diff" 2>/dev/null && ! (cd "$wt" && patch -s -p1 -F3 < "$out/patch.diff"); then echo "PATCH DOES NOT APPLY"; git -C /repo worktree remove --force "$wt"; exit 2; fi
 demo_mut=$(cd /tmp && PYTHONPATH="$wt/src" timeout 300 /venv/bin/python "$out/demo.py" >/dev/null 2>&1; echo $?)
 pinned=$(cd "$wt" && PYTHONPATH="$wt/src" /venv/bin/python -m pytest -q -p no:cacheprovider --timeout=900 --continue-on-collection-errors 2>&1 | tail -1)
 tmp=$(mktemp)
